@@ -266,7 +266,7 @@ func genRedacted() string {
 		ast.Inspect(fd, func(x ast.Node) bool {
 			if sw, ok := x.(*ast.SwitchStmt); ok && sw.Tag != nil {
 				t := exprText(sw.Tag)
-				if t == "strings.ToLower(key)" {
+				if strings.HasPrefix(t, "strings.ToLower(") && strings.Contains(t, "key") {
 					guarded = true
 				}
 			}
